@@ -1,12 +1,12 @@
-SPECIFICATION Spec
+SPECIFICATION GSpec
 CONSTANTS
-  MaxId = 5
+  MaxId = 4
   NDocs = 1
   NNames = 2
-  NStrs = 2
-  MaxData = 3
-  MaxOps = 4
-  MaxKids = 3
+  NStrs = 1
+  MaxData = 2
+  MaxOps = 1
+  MaxKids = 4
 ACTION_CONSTRAINT EmitT
-VIEW View
+VIEW GView
 CHECK_DEADLOCK FALSE
